@@ -14,6 +14,7 @@ CONSTANTS
     BoolOn = {"and", "or", "not"}
     IteOn = TRUE
     CallOn = {"sub2", "subxy", "ratio", "pick", "loc", "nest", "kmul", "dflt"}
+    ScopeModes = {"plain", "import", "closure", "both"}
     CallModes = {"pos", "kw", "kwrev", "mix", "def", "defkw"}
     AugOn = {"add", "mul"}
     PassOn = TRUE
